@@ -1,6 +1,7 @@
 import UPVerif.Core.Sexp
 import UPVerif.Drv.C33
 import UPVerif.Drv.Den
+import UPVerif.Drv.C03
 import UPVerif.Drv.C21
 import UPVerif.Drv.C18
 import UPVerif.Drv.C35
@@ -65,6 +66,7 @@ def handlers : List (String × (Sexp → Sexp)) := [
   ("C35", Drv.C35.handle),
   ("C18", Drv.C18.handle),
   ("C21", Drv.C21.handle),
+  ("C03", Drv.C03.handle),
   ("ECHO", Drv.Den.handleEcho),
   ("DEN", Drv.Den.handleDen)
 ]
